@@ -2,7 +2,7 @@
    Model/Diagnostics.v is the executable reading over exact rationals; each run Coq compares it
    with the implementation's floats (tolerance) on generated observation sets. *)
 From Coq Require Import QArith ZArith List Bool Arith Permutation.
-From TJ Require Import Base.Corr Base.XQ Base.ArgMax Model.Diagnostics Proofs.DiagProofs Proofs.DiagReverse.
+From TJ Require Import Base.Corr Base.XQ Base.ArgMax Model.Diagnostics Proofs.DiagProofs Proofs.DiagReverse Proofs.DiagCoverage.
 Import ListNotations.
 Open Scope Q_scope.
 
@@ -47,6 +47,12 @@ Proof. exact (mpg_time_reversal tref tref0 P a ts). Qed.
 Theorem C19_mpg_shift_invariant tref tref' P ts :
   ~ P == 0 -> max_phase_gap tref P ts == max_phase_gap tref' P ts.
 Proof. exact (mpg_shift_invariant tref tref' P ts). Qed.
+(* phase_coverage bounds: an observation occupies exactly one bin, so between 1 and min(n_bins, n_obs) bins are occupied *)
+Theorem C19_coverage_at_most_obs n ph : (occupied n ph <= length ph)%nat.
+Proof. exact (occupied_le_obs n ph). Qed.
+Theorem C19_coverage_at_least_one n ph :
+  (0 < n)%nat -> ph <> [] -> (forall p, In p ph -> 0 <= p /\ p < 1) -> (1 <= occupied n ph)%nat.
+Proof. exact (occupied_pos n ph). Qed.
 Theorem C19_coverage_counts_bins n ph : (occupied n ph <= n)%nat.
 Proof. exact (occupied_le n ph). Qed.
 
@@ -79,4 +85,6 @@ Print Assumptions C19_coverage_order_independent.
 Print Assumptions C19_mpg_time_reversal.
 Print Assumptions C19_mpg_shift_invariant.
 Print Assumptions C19_coverage_counts_bins.
+Print Assumptions C19_coverage_at_most_obs.
+Print Assumptions C19_coverage_at_least_one.
 Print Assumptions C19_map_is_max.
